@@ -35,7 +35,7 @@ ENTRY = {
     ],
 }
 MANIFEST = {
-    "text": "Lean theorems over an executable model of the suppression pass of CombinedScan::scan, for arbitrary lists of comment nodes and findings: the id-list parser returns exactly the ids the directive lists (comma-separated after the first colon, Unicode white space trimmed), `None` = all rules when there is no colon (parse_set_spec); the code's previous-sibling test is the textual own-line notion under a stated single-line-layout hypothesis (ownLine_agree, with a counter-example outside it); a finding is never silenced unless a governing comment names its rule and a comment is never reported unused unless it silenced nothing (silenced_only_if_named, unused_only_if_silent, no side condition); findings on ungoverned lines are reported (others_unaffected); `reported <-> not suppressed` and `unused reported <-> silenced nothing` hold when at most one comment governs a line (suppress_iff_partial, unused_iff_partial) and are refuted by a concrete witness when two do (suppress_collision_counterexample: the per-line table overwrites). For the code after FIX_C14.patch (all suppressions of a line kept) both equivalences are proved in full (Fixed.suppress_iff_full, Fixed.unused_iff_full). Tie to the code: ~40k texts through the real parse_suppression_set (hook), ~8.5k generated sources in JavaScript, Python, Rust, Lua and CSS (every placement of up to three comments around a statement line, id lists with spaces, duplicates, unknown ids, empty lists, no colon, block and doc comments, 1-4 rules, several findings per line) through the real CombinedScan::scan and ~1.2k through the real CLI, replayed on the Lean driver; the property itself is checked on the implementation's output by a reference working on the generator's layout, for separate_fix = false and true with fixable and non-fixable rules mixed (findings delivered in ScanResult.diffs are findings too), and end to end through `scan --update-all` on a temp copy (suppressed findings of fixable rules are not rewritten, the comments that silence them survive, unused suppressions are removed).",
+    "text": "Lean theorems over an executable model of the suppression pass of CombinedScan::scan, for arbitrary lists of comment nodes and findings: the id-list parser returns exactly the ids the directive lists (comma-separated after the first colon, Unicode white space trimmed), `None` = all rules when there is no colon (parse_set_spec); the code's previous-sibling test is the textual own-line notion under a stated single-line-layout hypothesis (ownLine_agree, with a counter-example outside it); a finding is never silenced unless a governing comment names its rule and a comment is never reported unused unless it silenced nothing (silenced_only_if_named, unused_only_if_silent, no side condition); findings on ungoverned lines are reported (others_unaffected); for the current code (fix 7f6712a: all suppressions governing a line are kept) `reported <-> not suppressed` and `unused reported <-> silenced nothing` are proved in full (Fixed.suppress_iff_full, Fixed.unused_iff_full); for the pinned v0.37.0 per-line table they hold when at most one comment governs a line (suppress_iff_partial, unused_iff_partial) and are refuted by a concrete witness when two do (suppress_collision_counterexample) — kept as regression theorems. Tie to the code: ~40k texts through the real parse_suppression_set (hook), ~8.5k generated sources in JavaScript, Python, Rust, Lua and CSS (every placement of up to three comments around a statement line, id lists with spaces, duplicates, unknown ids, empty lists, no colon, block and doc comments, 1-4 rules, several findings per line) through the real CombinedScan::scan and ~1.2k through the real CLI, replayed on the Lean driver; the property itself is checked on the implementation's output by a reference working on the generator's layout, for separate_fix = false and true with fixable and non-fixable rules mixed (findings delivered in ScanResult.diffs are findings too), and end to end through `scan --update-all` on a temp copy (suppressed findings of fixable rules are not rewritten, the comments that silence them survive, unused suppressions are removed).",
     "note": "Trusted: Lean kernel + 3 standard axioms; harness/driver/check.py glue; tree-sitter and rule matching are inputs of the model. Known findings (not repaired): `ast-grep-ignore:` with an empty list suppresses nothing; id lists inside block comments pick up the closing delimiter; Lua comments and Rust doc comments contain a nested comment-kind node that is treated as a second suppression.",
     "technique": "Lean 4 proof over hand-written executable model (as-is and post-fix variants) + declarative specification + differential correspondence (in-process API, hook, real CLI) + layout-level oracle with minimisation",
 }
